@@ -14,7 +14,8 @@
 (* gh / sh are the harness's own dl_new_hash / elf_hash of the name as     *)
 (* <<hi16, lo16>>; bloom words are four 16-bit limbs.                      *)
 (* One state per observation; the invariant ObsOK prints one C08OBS line   *)
-(* per observation and one C08FAIL line per failed lookup.                 *)
+(* per observation, one C08FAIL line per failed lookup and a C08HDR line   *)
+(* when the loader's set-up assertion on the table header fails.           *)
 (***************************************************************************)
 EXTENDS HashTables, Json, IOUtils
 
@@ -32,7 +33,9 @@ ASSUME ArithSample ==
         /\ \A s \in {0, 1, 5, 6, 7, 15, 16, 17, 25, 26} : ShrModC(h, s) = (v \div 2^s) % 64
         /\ ShrModC(<<65535, 65535>>, 27) = 31 /\ ShrModC(<<65535, 65535>>, 31) = 1
         /\ ShrModC(<<65535, 65535>>, 32) = 0
-        /\ \A m \in {1, 2, 4, 256} : DivCModM(h, m) = (v \div 64) % m
+        /\ \A m \in {1, 2, 4, 256} : DivCModM(h, m) = (v \div 64) % m /\ BloomWordIndex(h, m) = (v \div 64) % m
+        /\ BloomWordIndex(h, 3) = ((v \div 128) % 2) * 2 /\ BloomWordIndex(h, 0) = v \div 64
+        /\ BloomWordIndex(h, 5) = ((v \div 256) % 2) * 4          \* & 4
         /\ ModC(h) = v % 64
 ASSUME BloomBitSample ==
     LET w == <<1, 32768, 0, 40960>> IN     \* bits 0, 31, 61, 63
@@ -61,12 +64,14 @@ CheckObs(o) ==
     LET T  == [syms |-> o.syms, gnu |-> o.gnu, sysv |-> o.sysv]
         gb == IF o.want_gnu THEN GnuBad(T, o.probes) ELSE Empty
         sb == IF o.want_sysv THEN SysvBad(T, o.probes) ELSE Empty
-    IN /\ Report(o, T, "gnu", gb)
+    IN /\ (o.want_gnu /\ ~GnuSetupOK(T.gnu)) => PrintT(<<"C08HDR", o.id, "maskwords", T.gnu.maskwords>>)
+       /\ Report(o, T, "gnu", gb)
        /\ Report(o, T, "sysv", sb)
        /\ PrintT(<<"C08OBS", o.id, Cardinality(DefinedIdx(T)), Len(o.probes),
                    Cardinality(gb.defs) + Cardinality(gb.probes),
                    Cardinality(sb.defs) + Cardinality(sb.probes)>>)
        /\ NoBad(gb) /\ NoBad(sb)
+       /\ o.want_gnu => GnuSetupOK(T.gnu)
 
 ObsOK == CheckObs(ReadObs(k))
 =============================================================================
